@@ -36,7 +36,7 @@ LEVEL = "exploration"
 RULE = (
     "label sets (ordered tuples of frame types: 1-2 animals, missing anchor / missing node / all-NaN instance before or "
     "after a real one / predicted instance next to a user instance) x source colour x model type x scale x max_stride x "
-    "(sigma, output stride) x size-matcher target x is_rgb (x anchor, crop size, user_instances_only in thorough), each "
+    "(sigma, output stride) x size-matcher target x is_rgb x crop size (x anchor None, scale 0.75, user_instances_only=False in thorough), each "
     "built through in-memory *Dataset, np_chunks *Dataset (.npz) and chunk function + *StreamingDataset.__getitem__ and "
     "compared sample by sample; plus (DataPipe block, parameters, catalogue frame) triples compared with the functional "
     "counterpart.  Non-trivial (NT) = the label set / frame has >= 2 animals or a NaN.  distinct = distinct "
@@ -54,6 +54,13 @@ ASSUMPTIONS = [
     "single-instance model only on label sets whose frames each hold exactly one non-empty instance after the "
     "user-instance filter; centred-instance model only at scale 1 (the two documentations prescribe different orders "
     "of crop and resize for other scales); every frame has >= 1 non-empty instance",
+    "observation, not checked (outside the anchors): a labelled frame whose only instances are all-NaN is skipped by the "
+    "*Dataset classes but makes every *_data_chunks function raise 'ValueError: need at least one array to stack' "
+    "(process_lf stacks an empty list), and sleap_nn/training/get_bin_files.py feeds every frame to litdata.optimize -- "
+    "the label alphabet therefore has an all-NaN instance next to a real one but no all-empty frame",
+    "observation, by reading only (model_trainer.py:238-244, 340-470): with a user-set preprocessing.max_height/max_width "
+    "ModelTrainer gives the *Dataset classes the label-derived max size while the chunk functions prefer the configured "
+    "value, so the frameworks would size-match to different targets; here both get the same target",
     "48x64 frames, 3-node chain skeleton, <= 2 animals per frame, 2 frames (thorough: also 3 frames over 5 types); "
     "scales {1, 0.5} (thorough adds 0.75); one video per label set",
 ]
@@ -116,7 +123,8 @@ def configs_small(labelset, src_rgb, user_only, handover, product=True):
                 continue
             max_stride, head = strides[st]
             is_rgb, max_hw = pairs[pr]
-            out.append(_case(labelset, src_rgb, model, scale, max_stride, head, max_hw, is_rgb, 0, (32, 32), user_only, handover))
+            crop = (32, 32) if st == 0 else (24, 40)  # non-square with the second stride setting (an H/W swap shows)
+            out.append(_case(labelset, src_rgb, model, scale, max_stride, head, max_hw, is_rgb, 0, crop, user_only, handover))
     return out
 
 
@@ -133,23 +141,42 @@ def configs_full(labelset, src_rgb, handover):
     return out
 
 
+CORE_TYPES = ["A", "An0", "ABn0", "EB", "AP"]  # sub-alphabet for the most expensive products
+
+
 def groups_for(tier, handover):
-    """A group = one label file (label set, source colour) with the list of configurations run on it."""
+    """A group = one label file (label set, source colour) with the list of configurations run on it.
+
+    quick:    all ordered 2-frame sets over 8 frame types x 2 source colours x the orthogonal-array grid.
+    thorough: (1) all ordered 2-frame sets over 9 types x 2 colours x the 8-run product grid;
+              (2) the 25 ordered 2-frame sets over CORE_TYPES x 2 colours x the FULL product
+                  (scale {1,.5,.75} x max_stride x head x size target x is_rgb x anchor x crop);
+              (3) all 125 ordered 3-frame sets over CORE_TYPES x 2 colours x the orthogonal-array grid;
+              (4) user_instances_only=False on every 2-frame set holding a predicted instance x the 8-run grid.
+    """
     groups = []
     if tier == "quick":
         for ls in itertools.product(Hh.QUICK_TYPES, repeat=2):
             for src in (False, True):
                 groups.append((list(ls), src, configs_small(ls, src, True, handover, product=False)))
-    else:
-        for ls in itertools.product(Hh.THOROUGH_TYPES, repeat=2):
-            for src in (False, True):
-                cs = configs_full(ls, src, handover)
-                if any(t in ("AP", "P") for t in ls):  # the user-instance filter matters only with predicted instances
-                    cs += configs_small(ls, src, False, handover)
-                groups.append((list(ls), src, cs))
-        for ls in itertools.product(["A", "An0", "ABn0", "EB", "AP"], repeat=3):
-            for src in (False, True):
-                groups.append((list(ls), src, configs_small(ls, src, True, handover)))
+        return groups
+    for ls in itertools.product(Hh.THOROUGH_TYPES, repeat=2):
+        for src in (False, True):
+            cs = configs_small(ls, src, True, handover, product=True)
+            if all(t in CORE_TYPES for t in ls):
+                cs += configs_full(ls, src, handover)
+            if any(t in ("AP", "P") for t in ls):  # the user-instance filter matters only with predicted instances
+                cs += configs_small(ls, src, False, handover, product=True)
+            seen, uniq = set(), []
+            for c in cs:
+                k = core.digest(c)
+                if k not in seen:
+                    seen.add(k)
+                    uniq.append(c)
+            groups.append((list(ls), src, uniq))
+    for ls in itertools.product(CORE_TYPES, repeat=3):
+        for src in (False, True):
+            groups.append((list(ls), src, configs_small(ls, src, True, handover, product=False)))
     return groups
 
 
@@ -304,7 +331,7 @@ def run(ctx):
         "framework_cases": n_cases,
         "config_grid": "quick: 4-run strength-2 orthogonal array over scale x (max_stride, head) x (is_rgb, size target) per frame-based model, full 4 for centred-instance"
         if ctx.tier == "quick"
-        else "thorough: full product on all 2-frame sets; 8-run product of the three two-valued factors on 3-frame sets and on the user_instances_only=False variants",
+        else "thorough: 8-run product of the three two-valued factors on all 81 2-frame sets (and with user_instances_only=False where a predicted instance exists); FULL product incl. scale 0.75, anchor None, both crops on the 25 2-frame sets over the 5 core types; orthogonal array on the 125 3-frame sets over the core types",
         "models": MODELS,
         "scales": [1.0, 0.5] + ([0.75] if ctx.tier == "thorough" else []),
         "max_stride": [1, 16],
@@ -312,7 +339,7 @@ def run(ctx):
         "size_matcher_target": [None, list(Hh.BIG_HW)],
         "source_rgb_x_is_rgb": "all four pairs",
         "anchor": [0] + ([None] if ctx.tier == "thorough" else []),
-        "crop_hw": [[32, 32]] + ([[24, 40]] if ctx.tier == "thorough" else []),
+        "crop_hw": [[32, 32], [24, 40]],
         "user_instances_only": [True] + ([False] if ctx.tier == "thorough" else []),
         "litdata_handover": handover,
         "block_cases": 2 * len(CATALOGUE) * sum(len(v) for v in Hh.BLOCK_PARAMS.values()),
